@@ -496,6 +496,81 @@ theorem tensor_view_as_matrix_view (v : Arith.TView ν α) (hv : v.WF) {a b : ν
       simp [hj]
     · simp [hi]
 
+/-! ### Euclidean length -/
+
+/-- `Matrix::euclidean_length` of a row or column vector with entries `x₀ … xₙ` is
+    `sqrt(x₀² + … + xₙ²)` (the squares summed from the left by the 1×1 matrix product the code
+    forms with the transposed vector); a matrix that is neither is rejected.
+    (`Tensor::euclidean_length` is by definition `sqrt` of the left-folded sum of squares.) -/
+theorem euclidean_length_eq [Add α] [Mul α] [Zero α] [RealFns α] (m : Matrix α)
+    (n : Nat) (X : Nat → α) (hX : ∀ k, k ≤ n → m.data[k]? = some (X k)) :
+    (m.columns = 1 → m.rows = n + 1 →
+      matrixEuclideanLength m = .ok (RealFns.sqrt (leftSum (fun k => X k * X k) n))) ∧
+    (m.rows = 1 → m.columns = n + 1 →
+      matrixEuclideanLength m = .ok (RealFns.sqrt (leftSum (fun k => X k * X k) n))) ∧
+    (m.rows ≠ 1 → m.columns ≠ 1 → matrixEuclideanLength m = .panic .explicit) := by
+  refine ⟨?_, ?_, ?_⟩
+  · intro hc hr
+    have hget : ∀ k, k < n + 1 → m.tryGet k 0 = some (X k) := by
+      intro k hk
+      rw [Matrix.tryGet_eq, if_pos ⟨by omega, by omega⟩, hc]
+      simpa using hX k (by omega)
+    have h := mMatMul_eq (l := ⟨1, m.rows, fun _ c => m.tryGet c 0⟩) (r := MView.ofMatrix m)
+      (n := n) (A := fun _ p => X p) (B := fun p _ => X p) hr hr (Nat.le_refl 1)
+      (by show 1 ≤ m.columns; omega)
+      (by intro i j _ hj; exact hget j (by simpa [hr] using hj))
+      (by intro i j hi hj
+          have hj' : j = 0 := by have : j < m.columns := hj; omega
+          subst hj'
+          exact hget i (by have : i < m.rows := hi; omega))
+    unfold matrixEuclideanLength
+    rw [if_pos hc, h]
+    simp [MView.ofMatrix, hc]
+  · intro hr hc
+    have hget : ∀ k, k < n + 1 → m.tryGet 0 k = some (X k) := by
+      intro k hk
+      rw [Matrix.tryGet_eq, if_pos ⟨by omega, by omega⟩]
+      simpa using hX k (by omega)
+    have h := mMatMul_eq (l := MView.ofMatrix m) (r := ⟨m.columns, 1, fun r _ => m.tryGet 0 r⟩)
+      (n := n) (A := fun _ p => X p) (B := fun p _ => X p) hc hc
+      (by show 1 ≤ m.rows; omega) (Nat.le_refl 1)
+      (by intro i j hi hj
+          have hi' : i = 0 := by have : i < m.rows := hi; omega
+          subst hi'
+          exact hget j (by have : j < m.columns := hj; omega))
+      (by intro i j hi _; exact hget i (by simpa [hc] using hi))
+    unfold matrixEuclideanLength
+    by_cases hc1 : m.columns = 1
+    · -- 1×1: the column-vector branch is taken; same value
+      have hn : n = 0 := by omega
+      subst hn
+      have := (show _ from hget 0 (by omega))
+      have h' := mMatMul_eq (l := ⟨1, m.rows, fun _ c => m.tryGet c 0⟩) (r := MView.ofMatrix m)
+        (n := 0) (A := fun _ p => X p) (B := fun p _ => X p) hr hr (Nat.le_refl 1)
+        (by show 1 ≤ m.columns; omega)
+        (by intro i j _ hj
+            have hj' : j = 0 := by have : j < m.rows := hj; omega
+            subst hj'; exact this)
+        (by intro i j hi hj
+            have hi' : i = 0 := by have : i < m.rows := hi; omega
+            have hj' : j = 0 := by have : j < m.columns := hj; omega
+            subst hi'; subst hj'; exact this)
+      rw [if_pos hc1, h']
+      simp [MView.ofMatrix, hc1]
+    · rw [if_neg hc1, if_pos hr, h]
+      simp [MView.ofMatrix, hr]
+  · intro hr hc
+    unfold matrixEuclideanLength
+    rw [if_neg hc, if_neg hr]
+
+/-- a concrete 1×3 row vector meets the hypotheses -/
+example : ∀ k, k ≤ 2 → (⟨[3, 4, 12], 1, 3⟩ : Matrix Int).data[k]? = some (([3, 4, 12] : List Int).getD k 0) := by
+  intro k hk
+  match k, hk with
+  | 0, _ => rfl
+  | 1, _ => rfl
+  | 2, _ => rfl
+
 /-! ### Every composition of the library's view adaptors is a well-formed operand -/
 
 /-- C02's model of the view adaptors (`View`: any composition of range / mask / index / expansion /
